@@ -1,5 +1,5 @@
 (* C14 - Decoded packets own their memory and packets do not interfere. *)
-From MQ Require Import Model.Prov Model.Stream Proofs.BytesP Proofs.StreamP Proofs.FrameP.
+From MQ Require Import Model.Prov Model.Stream Proofs.BytesP Proofs.StreamP Proofs.FrameP gen.GenEffects gen.SyncEffects.
 From Coq Require Import List. Import ListNotations.
 
 (* Every byte-slice field that any packet type's decoder stores is freshly
@@ -40,3 +40,11 @@ Print Assumptions C14_history_independent.
    another. That the Go packets share no mutable memory (decoded slices,
    the package-level protocol name) is decided on the implementation by
    the scribble and pool oracles. *)
+
+(* No function of the package writes a package-level variable, uses a pool
+   or a cache, starts a goroutine or uses a channel (write-set analysis of
+   the source, tools/gosync effects.go, regenerated on every run): separate
+   decodes have no package-level state through which to interfere. *)
+Theorem C14_no_global_state : g_global_effects = [].
+Proof. exact sync_no_global_state. Qed.
+Print Assumptions C14_no_global_state.
